@@ -193,6 +193,28 @@ pub fn run_c04(tape: &[u8], cx: &Cx) -> Outcome {
     }
     if b.num_states() != before {
         o.fail("C04/equivalent-states-remain", format!("a second minimize reduces {} states to {}", before, b.num_states()));
+        return o;
+    }
+    // minimise + prune = the canonical minimal complete DFA: exactly index-many states, same language
+    if let Err(msg) = catch(|| b.remove_unreachable_states()) {
+        o.fail("C04/minimize-panics", format!("remove_unreachable_states after minimize panicked: {}", msg));
+        return o;
+    }
+    check_counts(&b, "after minimize + remove_unreachable_states", "C04/counts-inconsistent", &mut o);
+    match product_automaton(&case.atoms, &case.dfa, case.dfa.start, &b, b.initial_state()) {
+        ProductResult::Equal(p) => o.evals += p as u64,
+        ProductResult::Differ { word, automaton_says, reference_says } => {
+            o.fail("C04/language-changed", format!("after minimize and remove_unreachable_states: accepts({}) = {} but the language says {}", show_str(&word), automaton_says, reference_says));
+            return o;
+        }
+        ProductResult::Stuck { word, msg } => {
+            o.fail("C04/next-panics", format!("after minimize and remove_unreachable_states: stepping along {} panicked: {}", show_str(&word), msg));
+            return o;
+        }
+    }
+    if b.num_states() != index {
+        o.fail("C04/not-minimal", format!("after minimize and remove_unreachable_states the automaton has {} states; the minimal complete DFA of the language has {}", b.num_states(), index));
+        return o;
     }
     o.nontrivial = n_classes_a < a.num_states() && n_classes_b >= 2;
     if n_classes_a < a.num_states() {
@@ -213,23 +235,8 @@ pub fn run_c04(tape: &[u8], cx: &Cx) -> Outcome {
 // C13
 // ---------------------------------------------------------------------------------------------
 
-pub fn run_c13(tape: &[u8], cx: &Cx) -> Outcome {
-    let mut t = Tape::new(tape);
-    let sem = gen_sem(&mut t, &GenCfg { max_landmarks: 4, max_base: 4, max_clones: 2, max_unreachable: 1 });
-    let mut spec = sem_to_spec(&mut t, &sem);
-    let mut muts: Vec<Mutation> = Vec::new();
-    let nm = t.weighted(&[3, 5, 3]);
-    for _ in 0..nm {
-        let m = mutate(&mut t, &mut spec);
-        if m != Mutation::None {
-            muts.push(m);
-        }
-    }
-    let mut o = Outcome::default();
-    o.digest = fnv(format!("{:?}", spec).as_bytes());
-    if cx.render {
-        o.render = format!("{} ; mutations {:?}", spec.render(), muts);
-    }
+/// verdict on one build() result against the meaning of the calls given so far; false = stop
+fn judge_build(spec: &Spec, res: Result<Automaton, aws_smt_strings::errors::Error>, phase: &str, o: &mut Outcome) -> bool {
     let view = spec.view();
     let facts: BTreeMap<u32, _> = view.iter().map(|(l, v)| (*l, state_facts(v))).collect();
     let conflict = facts.values().any(|f| f.conflict);
@@ -238,52 +245,43 @@ pub fn run_c13(tape: &[u8], cx: &Cx) -> Outcome {
     let useless = facts.values().any(|f| f.useless_default);
     let first_bad = |pred: &dyn Fn(&crate::spec::StateFacts) -> bool| facts.iter().find(|(_, f)| pred(f)).map(|(l, _)| *l).unwrap();
     o.evals += 1;
-    let res = match spec.build() {
-        Ok(r) => r,
-        Err(msg) => {
-            o.fail("C13/build-panics", format!("build panicked: {}", msg));
-            return o;
-        }
-    };
     match res {
         Ok(a) => {
             if incomplete {
-                o.fail("C13/accepts-incomplete-state", format!("build returned an automaton although state {} leaves characters without successor (no transition covers them and no default was declared)", first_bad(&|f| f.incomplete)));
-                return o;
+                o.fail("C13/accepts-incomplete-state", format!("{}: build returned an automaton although state {} leaves characters without successor (no transition covers them and no default was declared)", phase, first_bad(&|f| f.incomplete)));
+                return false;
             }
             if conflict {
-                o.fail("C13/accepts-conflicting-transitions", format!("build returned an automaton although state {} gives some character two different successors", first_bad(&|f| f.conflict)));
-                return o;
+                o.fail("C13/accepts-conflicting-transitions", format!("{}: build returned an automaton although state {} gives some character two different successors", phase, first_bad(&|f| f.conflict)));
+                return false;
             }
             // the automaton implements exactly the caller's delta
-            match lockstep(&spec, &a) {
+            match lockstep(spec, &a) {
                 WalkResult::Ok(map) => {
                     o.evals += map.len() as u64;
                 }
                 WalkResult::Mismatch(m) => {
-                    o.fail("C13/delta-differs-from-spec", m);
-                    return o;
+                    o.fail("C13/delta-differs-from-spec", format!("{}: {}", phase, m));
+                    return false;
                 }
             }
             let labels = spec.labels();
             let nfinal = view.values().filter(|v| v.is_final).count();
             if a.num_states() != labels.len() || a.num_final_states() != nfinal {
-                o.fail("C13/counts", format!("num_states = {} (labels mentioned: {}), num_final_states = {} (labels marked: {})", a.num_states(), labels.len(), a.num_final_states(), nfinal));
-                return o;
+                o.fail("C13/counts", format!("{}: num_states = {} (labels mentioned: {}), num_final_states = {} (labels marked: {})", phase, a.num_states(), labels.len(), a.num_final_states(), nfinal));
+                return false;
             }
-            check_counts(&a, "built automaton", "C13/counts", &mut o);
+            check_counts(&a, "built automaton", "C13/counts", o);
             o.tag("accepted");
         }
         Err(e) => {
             if !overlap && !incomplete && !useless {
-                o.fail("C13/rejects-good-spec", format!("build = Err({:?}) although the specification is complete, has pairwise disjoint labels and declares defaults only where needed", e));
-                return o;
+                o.fail("C13/rejects-good-spec", format!("{}: build = Err({:?}) although the specification is complete, has pairwise disjoint labels and declares defaults only where needed", phase, e));
+                return false;
             }
             o.tag("rejected");
         }
     }
-    let labels = spec.labels();
-    o.nontrivial = labels.len() >= 2 && (conflict || incomplete || view.values().any(|v| v.trans.len() >= 2 && v.default.is_none()));
     if conflict {
         o.tag("spec-conflict");
     }
@@ -298,6 +296,63 @@ pub fn run_c13(tape: &[u8], cx: &Cx) -> Outcome {
     }
     if !conflict && !incomplete && !overlap && !useless {
         o.tag("spec-strictly-good");
+    }
+    true
+}
+
+pub fn run_c13(tape: &[u8], cx: &Cx) -> Outcome {
+    let mut t = Tape::new(tape);
+    let sem = gen_sem(&mut t, &GenCfg { max_landmarks: 4, max_base: 4, max_clones: 2, max_unreachable: 1 });
+    let mut spec = sem_to_spec(&mut t, &sem);
+    let mut muts: Vec<Mutation> = Vec::new();
+    let nm = t.weighted(&[3, 5, 3]);
+    for _ in 0..nm {
+        let m = mutate(&mut t, &mut spec);
+        if m != Mutation::None {
+            muts.push(m);
+        }
+    }
+    // a quarter of the cases: the builder is used again after build(): more calls, second build()
+    let extra = if t.bool_p(64) { crate::spec::gen_extra_calls(&mut t, &spec) } else { vec![] };
+    let mut o = Outcome::default();
+    o.digest = fnv(format!("{:?}{:?}", spec, extra).as_bytes());
+    if cx.render {
+        o.render = format!("{} ; mutations {:?}", spec.render(), muts);
+        if !extra.is_empty() {
+            let e2 = Spec { init: spec.init, calls: extra.clone() };
+            o.render.push_str(&format!(" ; build() ; then {} ; build()", e2.render().replacen(&format!("new({}); ", spec.init), "", 1)));
+        }
+    }
+    let view = spec.view();
+    let labels = spec.labels();
+    let any_bad = view.values().map(state_facts).any(|f| f.conflict || f.incomplete);
+    o.nontrivial = labels.len() >= 2 && (any_bad || view.values().any(|v| v.trans.len() >= 2 && v.default.is_none()));
+    if extra.is_empty() {
+        let res = match spec.build() {
+            Ok(r) => r,
+            Err(msg) => {
+                o.fail("C13/build-panics", format!("build panicked: {}", msg));
+                return o;
+            }
+        };
+        judge_build(&spec, res, "build", &mut o);
+    } else {
+        o.tag("two-builds");
+        let (first, second) = match spec.build_twice(&extra) {
+            Ok(r) => r,
+            Err(msg) => {
+                o.fail("C13/build-panics", format!("build panicked: {}", msg));
+                return o;
+            }
+        };
+        if !judge_build(&spec, first, "first build", &mut o) {
+            return o;
+        }
+        // the second build must be judged against ALL calls the caller made
+        let mut all = spec.calls.clone();
+        all.extend(extra.iter().cloned());
+        let cumulative = Spec { init: spec.init, calls: all };
+        judge_build(&cumulative, second, "second build (same builder, after further calls)", &mut o);
     }
     o
 }
@@ -520,6 +575,64 @@ pub fn run_c14(tape: &[u8], cx: &Cx) -> Outcome {
                 for c in crate::bisim::state_probe_chars(s, &[]) {
                     if s.class_of_char(c) == ClassId::Complement && x.next(s, c).id() != d {
                         o.fail("C14/edges", format!("{}: uncovered character {} of state {} does not go to the default successor", name, show_char(c), s.id()));
+                        return o;
+                    }
+                }
+            }
+        }
+    }
+    // --- sequences of pruning and minimisation on one automaton: after every step the language,
+    // the bookkeeping and the compiled table must still be right
+    if let Ok(mut c) = case.build() {
+        let nops = 2 + t.choose(2);
+        let mut did_min = false;
+        let mut did_prune = false;
+        let mut trace = String::new();
+        for _ in 0..nops {
+            let op_min = t.flag();
+            let r = if op_min { catch(|| c.minimize()) } else { catch(|| c.remove_unreachable_states()) };
+            trace.push_str(if op_min { "minimize; " } else { "remove_unreachable_states; " });
+            if let Err(msg) = r {
+                o.fail("C14/operation-sequence-panics", format!("after [{}]: {}", trace, msg));
+                return o;
+            }
+            did_min |= op_min;
+            did_prune |= !op_min;
+            check_counts(&c, &format!("after [{}]", trace), "C14/counts-inconsistent", &mut o);
+            match product_automaton(&case.atoms, &case.dfa, case.dfa.start, &c, c.initial_state()) {
+                ProductResult::Equal(p) => o.evals += p as u64,
+                ProductResult::Differ { word, .. } => {
+                    o.fail("C14/operation-sequence-changes-language", format!("after [{}] the automaton disagrees with the language on {}", trace, show_str(&word)));
+                    return o;
+                }
+                ProductResult::Stuck { word, msg } => {
+                    o.fail("C14/operation-sequence-panics", format!("after [{}]: stepping along {} panicked: {}", trace, show_str(&word), msg));
+                    return o;
+                }
+            }
+        }
+        if did_min && did_prune {
+            o.tag("minimize+prune-sequence");
+            let index = case.dfa.minimized().n();
+            let reach = reachable_states(&c, &automaton_probe_chars(&c, &reps));
+            // pruning must have left only reachable states, whatever the order of the operations
+            if trace.trim_end().ends_with("remove_unreachable_states;") && reach.len() != c.num_states() {
+                o.fail("C14/unreachable-state-kept", format!("after [{}] {} states remain but only {} are reachable", trace, c.num_states(), reach.len()));
+                return o;
+            }
+            if reach.len() == c.num_states() && c.num_states() != index {
+                o.fail("C14/operation-sequence-changes-language", format!("after [{}] all {} states are reachable and minimised, but the minimal complete DFA has {}", trace, c.num_states(), index));
+                return o;
+            }
+        }
+        // the compiled table of the final automaton
+        let alpha = c.pick_alphabet();
+        if let Ok(table) = catch(|| c.compile_successors()) {
+            for st in c.states() {
+                for (i, &ch) in alpha.iter().enumerate() {
+                    o.evals += 1;
+                    if table.eval(st.id() as u32, i as u32) != c.next(st, ch).id() as u32 {
+                        o.fail("C14/table-differs-from-next", format!("after [{}]: eval({}, {}) differs from next", trace, st.id(), i));
                         return o;
                     }
                 }
